@@ -83,6 +83,10 @@ Detail(e, clause) ==
     [] clause = "same-files-after-an-earlier-publish" ->
          IF HasRun(e, "prior") /\ ~SameAsRef(e, CHOOSE k \in Others(e, {"prior"}) : TRUE) THEN Groups(DiffGroups(e, "prior")) ELSE "aftershow " \o Groups(DiffGroups(e, "aftershow"))
     [] clause = "no-data-race" -> RaceClasses(e)
+    [] clause = "same-files-under-the-race-detector" ->
+         \* the run that differs reported races, all of them on the lazily filled caches of the shared document (known finding):
+         \* what a worker read from a half-filled cache can end up on a page; a difference without such a report is not explained
+         IF RaceClasses(e) = "lazy-cache " THEN "asis:LazyCacheRaces" ELSE RaceClasses(e)
     [] clause = "every-link-resolves" ->
          \* a link into a page group that was switched off: the target exists when every group is published
          \* (the groups the known finding is about: pages of individuals, their index pages, pages of sources; "linkgroups" is this
